@@ -286,9 +286,24 @@ def run_childlist(prog, ctx=None):
                 if not (l.get("k") == "mem" and l.get("f") == "children" and l.get("rec", "").split("::")[-1] in ("mpt_node", "node")):
                     continue
                 V = strip(n["b"], all_casts=True)
-                if V.get("k") != "call":
-                    continue
-                gs = [g for g in prog.resolve_call(f, V) if producer(g)]
+                if V.get("k") == "bin" and V.get("op") == "=":
+                    V = strip(V["b"], all_casts=True)
+                calls = [V] if V.get("k") == "call" else []
+                if V.get("k") == "ref" and V["d"].get("dk") == "local":
+                    # the list was taken into a local first: `sub = build(..); A->children = sub;`
+                    for b2, i2, m in f.walk_all():
+                        src = None
+                        if m.get("k") == "bin" and m.get("op") == "=":
+                            l2 = strip(m["a"], lvalue_to_rvalue=False)
+                            if l2.get("k") == "ref" and l2["d"].get("id") == V["d"]["id"]:
+                                src = strip(m["b"], all_casts=True)
+                        elif m.get("k") == "decl":
+                            for v2 in m.get("vars", []):
+                                if v2["id"] == V["d"]["id"] and v2.get("init") is not None:
+                                    src = strip(v2["init"], all_casts=True)
+                        if src is not None and src.get("k") == "call":
+                            calls.append(src)
+                gs = [g for c2 in calls for g in prog.resolve_call(f, c2) if producer(g)]
                 if not gs:
                     continue
                 A = norm(show(strip(l["b"], all_casts=True), f))
